@@ -383,7 +383,7 @@ func TestC15(t *testing.T) {
 	c := h.New(t, "C15")
 	defer c.Finish()
 	c.Rule("total: byte strings (random bytes, token soups over the full token vocabulary incl. unterminated strings/comments/NUL/non-UTF-8, truncations/deletions/insertions/duplications/splices of generated valid programs, bracket nests up to 1500 deep, valid programs); non-trivial = >= 3 whitespace-separated chunks and (parses, or rejected at a position other than 1:1). concurrent: batches parsed from 8 goroutines vs alone. compose: pairs of generated valid programs (incl. empty, comment-only, trailing ';', leading blank lines); non-trivial = both have >= 1 statement and A spans >= 2 lines. distinct by text")
-	h.Run(c, "total", c.N(45000, 500000), genInput, oracleTotal)
-	h.Run(c, "concurrent", c.N(1500, 15000), genBatch, oracleConcurrent)
-	h.Run(c, "compose", c.N(12000, 120000), genPair, oracleCompose)
+	h.Run(c, "total", c.N(45000, 150000), genInput, oracleTotal)
+	h.Run(c, "concurrent", c.N(1500, 4000), genBatch, oracleConcurrent)
+	h.Run(c, "compose", c.N(12000, 50000), genPair, oracleCompose)
 }
